@@ -60,7 +60,10 @@ func (m *MTProto) sendPacket(request tl.Object, expectedTypes ...reflect.Type) (
 		}
 	}
 
-	err = m.transport.WriteMsg(data, MessageRequireToAck(request))
+	m.connMutex.RLock()
+	t := m.transport
+	m.connMutex.RUnlock()
+	err = t.WriteMsg(data, MessageRequireToAck(request))
 	if err != nil {
 		return nil, errors.Wrap(err, "sending request")
 	}
